@@ -237,10 +237,8 @@ def abstract(run: Runner, o: Dict[str, Any], options: Any) -> Any:
     single = {s: getattr(run.expected(cli_args(o, [s], "eq")), attr_of(o)) for s in (1, 2)}
     if kind == "store":
         default = getattr(run.expected([]), attr_of(o))
-        for s in (1, 2):
-            if val == single[s]:
-                return [s]
-        return [] if val == default else None
+        hits = [[s] for s in (1, 2) if val == single[s]] + ([[]] if val == default else [])
+        return hits[0] if len(hits) == 1 else None     # two slots with the same concrete value: not mappable
     out = []
     for item in (val or []):
         hit = [s for s in (1, 2) if single[s] == [item]]
